@@ -248,7 +248,8 @@ fn handshake_line(with_fd: bool, kind: &str, script: &str, probe: bool, dir: &st
             }
         }
     }
-    let res = rx.recv_timeout(DEADLINE);
+    // the server has seen the client close (or has given up waiting for it): the result is due
+    let res = rx.recv_timeout(if timed_out { Duration::from_millis(500) } else { DEADLINE });
     drop(s);
     drop(listener);
     if let Some(p) = path {
@@ -261,7 +262,6 @@ fn handshake_line(with_fd: bool, kind: &str, script: &str, probe: bool, dir: &st
         }
         Err(_) => ("hang".to_string(), "-".to_string()), // the client thread is left behind
     };
-    let _ = timed_out;
     format!("{} S:{} M:{}", class, hex(&got), m)
 }
 
